@@ -6,11 +6,11 @@
     - [numbers_ok e]       every number literal is accepted by Rust's [f64] parser -- guaranteed by
                            the expression grammar (Digits ('.' Digits?)? | '.' Digits), and
                            [unwrap()]ped by the evaluator;
-    - [no_substring e]     [substring()] is not called (its panics are defect D30 of the scalar
-                           function library, property C09). *)
+    ([pf] is kept for conditions on function names; [substring()] needed one while its panics,
+    defect D30 of the scalar library, were unrepaired.) *)
 From Coq Require Import List NArith Bool.
 From XmlRs Require Import Base.CPred.
-From XmlRs Require Import Model.XPathAst Model.XPathScalar.
+From XmlRs Require Import Spec.XPathCore Model.XPathFuncs Model.XPathAst Model.XPathScalar.
 Import ListNotations.
 
 Definition qname_local (q : qname) : str :=
@@ -90,9 +90,8 @@ Definition not_ns_axis (a : axis_spec) : bool :=
 Definition any_str (s : str) : bool := true.
 Definition parses (s : str) : bool :=
   match rust_parse_f64 s with Some _ => true | None => false end.
-Definition not_substring (s : str) : bool := negb (str_eqb s fn_substring).
 
 (** no step uses the namespace axis *)
 Definition no_ns_axis (e : expr) : bool := ok_or not_ns_axis any_str any_str e.
 (** what the no-panic theorem asks of an expression *)
-Definition expr_total (e : expr) : bool := ok_or any_axis parses not_substring e.
+Definition expr_total (e : expr) : bool := ok_or any_axis parses any_str e.
